@@ -48,7 +48,7 @@ def trees(draw, max_depth=3, want_collection=None):
             for c in CHILD_KEYS[:nchild]:
                 child = {'x': leaf(), 'y': leaf()}
                 if inner:
-                    child['inner'] = {'z': leaf()}
+                    child['inner'] = {'z': leaf(), 'w': leaf()}
                 coll[c] = child
             collections.append(list(path))
             return coll
@@ -63,7 +63,8 @@ def trees(draw, max_depth=3, want_collection=None):
         k = 'e'
         coll = {}
         for c in CHILD_KEYS[:draw(st.integers(1, 3))]:
-            coll[c] = {'x': leaf(), 'y': leaf(), 'inner': {'z': leaf()}}
+            coll[c] = {'x': leaf(), 'y': leaf(),
+                       'inner': {'z': leaf(), 'w': leaf()}}
         tree[k] = coll
         collections.append([k])
     if not any(isinstance(v, dict) for v in tree.values()):
@@ -126,7 +127,8 @@ def detoured(draw, tree, frm, path, enabled):
 @st.composite
 def wirings(draw, max_procs=3, features=('dotdot', 'split', 'leaf', 'glob',
                                          'alias', 'output', 'deep',
-                                         'omit_port', 'glob_base')):
+                                         'omit_port', 'glob_base',
+                                         'glob_nested')):
     tree, collections = draw(trees(want_collection='glob' in features
                                    and draw(st.booleans())))
     background = draw(st.booleans())
@@ -191,6 +193,13 @@ def wirings(draw, max_procs=3, features=('dotdot', 'split', 'leaf', 'glob',
                     # the '*' dictionary may carry the last part of the way
                     # to the collection as a '_path' of its own
                     based = 'glob_base' in features and draw(st.booleans())
+                nested = None
+                if has_inner and not subtopo and 'glob_nested' in features \
+                        and draw(st.booleans()):
+                    # a nested sub-schema: one variable of <child>/inner
+                    # (another process may declare the other one)
+                    nested = draw(st.sampled_from(['z', 'w']))
+                    sub['inner'] = {nested: {'_default': 0}}
                 schema[port] = {'*': sub}
                 path = draw(detoured(tree, at, rel(at, G), det))
                 if subtopo and based and path:
@@ -206,6 +215,9 @@ def wirings(draw, max_procs=3, features=('dotdot', 'split', 'leaf', 'glob',
                         W.append([[port, c, v], G + [c, v]])
                     if subtopo:
                         W.append([[port, c, 'zz'], G + [c, 'inner', 'z']])
+                    if nested:
+                        W.append([[port, c, 'inner', nested],
+                                  G + [c, 'inner', nested]])
 
                 globs.append({'view': [port], 'node': G,
                               'vars': sorted(sub)})
@@ -339,6 +351,8 @@ def labels(spec):
                 out.add('leaf_port')
             if '*' in s:
                 out.add('glob')
+                if isinstance(s['*'], dict) and 'inner' in s['*']:
+                    out.add('glob.nested_subschema')
             if s.get('_output'):
                 out.add('output_port')
         seen = {}
